@@ -4,6 +4,10 @@ import OmplModel.Proofs.PhsBridge
 import OmplModel.Proofs.PhsLogic
 import OmplModel.Proofs.PhsCap
 import OmplModel.Proofs.PhsState
+import OmplModel.Proofs.PhsMore
+import OmplModel.Proofs.PhsVolume
+import OmplModel.Proofs.PhsOrdered
+import OmplModel.Proofs.PhsNonvac
 /-!
 # C15 — informed sampling returns only, and all of, the states that can still help
 
@@ -343,6 +347,136 @@ theorem phs_state_is_function_of_current_diameter (cs : List α) (p q : Phs α) 
 /-- non-vacuity: an empty and a one-call history exist for every object -/
 example (p : Phs α) : PhsState.history p [] = some p := rfl
 end state
+
+
+/-! ## Round 3: closed ball, two-bound form over ℝ, wrapper, n-ball with radius, the model's own 2-D rotation -/
+
+/-- **The PHS transform maps the closed unit ball into `{x | d(x,f₁)+d(x,f₂) ≤ dTransverse}`** (every
+dimension; `cmin ≤ c`, so the degenerate PHS `c = cmin` — the focal segment — is included). -/
+theorem phs_closed_ball {n : ℕ} {f1 f2 : List ℝ} {rot : List (List ℝ)} (hs : Setup n f1 f2 rot) (id : ℕ) (c : ℝ)
+    {u : List ℝ} (hu : u.length = n + 1) (hsq : sumSq u ≤ 1)
+    (hc : ((Phs.mk' id f1 f2 rot).setC c).cmin ≤ c) :
+    ∃ x, ((Phs.mk' id f1 f2 rot).setC c).transform u = some x ∧ x.length = n + 1 ∧
+      ((Phs.mk' id f1 f2 rot).setC c).pathLength x ≤ c :=
+  PhsMore.model_phs_closed_ball hs id c hu hsq hc
+
+/-- **Two-bound form over ℝ**: a successful `sampleUniform(state, minCost, maxCost)` of the direct sampler
+returns a state with `minCost ≤ heuristic < maxCost` (both branches, any number of start/goal pairs; from the
+`isInAnyPhs` tests of the code, no hypothesis on the rotation or the draws), inside the bounds when the base
+sampler's draws are. -/
+theorem direct3_success_cost_between {ρ : Type} (s : Sampler ℝ) (inB : List ℝ × ρ → Bool) (minC c : ℝ)
+    (ds : List (Draw ℝ ρ)) (cur : List ℝ × ρ) (hall : ∀ p ∈ (s.update c).phss, p.c = c)
+    (hf : (s.sample3 inB true minC c ds cur).2.found = true) :
+    (∃ sc, (s.update c).hcost (s.sample3 inB true minC c ds cur).2.st.1 = some sc ∧ minC ≤ sc ∧ sc < c) ∧
+    ((∀ d ∈ ds, inB (d.baseInf, d.baseRest) = true) → inB (s.sample3 inB true minC c ds cur).2.st = true) :=
+  ⟨PhsMore.direct3_success_cost_between s inB minC c ds cur hall hf,
+   fun hbase => PhsMore.direct3_success_in_bounds s inB minC c ds cur hbase hf⟩
+
+/-- rejection sampler over ℝ: `heuristic < maxCost`, and `minCost ≤ heuristic < maxCost` for the two-bound form -/
+theorem rejection_success_cost_between {ρ : Type} (h : List ℝ × ρ → ℝ) (lim : ℕ) (minC c : ℝ)
+    (ds : List (Draw ℝ ρ)) (cur : List ℝ × ρ) :
+    ((rejSample2 h lim c ds cur).found = true → h (rejSample2 h lim c ds cur).st < c) ∧
+    ((rejSample3 h lim minC c ds cur).found = true →
+      minC ≤ h (rejSample3 h lim minC c ds cur).st ∧ h (rejSample3 h lim minC c ds cur).st < c) :=
+  ⟨PhsMore.rej2_success_cost_below h lim c ds cur, PhsMore.rej_success_cost_between h lim minC c ds cur⟩
+
+/-- **InformedStateSampler** (the `StateSampler` planners hold) [AF]: it returns either the informed sampler's
+successful state or, after a reported failure, the next regular base sample — never the leftover of a failed
+attempt; hence always a state inside the bounds. -/
+theorem informed_state_sampler_sound {α ρ : Type} (inB : List α × ρ → Bool) (o : Out α ρ)
+    (st : List α × ρ) (rest : List (Draw α ρ)) (flag : Bool)
+    (h : informedStateSample o = some (st, rest, flag)) :
+    ((flag = true → o.found = true ∧ st = o.st ∧ rest = o.rest) ∧
+     (flag = false → o.found = false ∧ ∃ d, o.rest = d :: rest ∧ st = (d.baseInf, d.baseRest))) ∧
+    ((o.found = true → inB o.st = true) → (∀ d ∈ o.rest, inB (d.baseInf, d.baseRest) = true) → inB st = true) :=
+  ⟨PhsMore.informedStateSample_spec o st rest flag h,
+   fun hfound hbase => PhsMore.informedStateSample_in_bounds inB o hfound hbase st rest flag h⟩
+
+/-- `nBallMeasure(N, r)` as coded equals `unitBall(N)·r^N`, the Lebesgue volume of the radius-`r` ball -/
+theorem nBallMeasure_closed_form (n : ℕ) (r : ℝ) :
+    (nBallMeasure n r : ℝ) = unitNBallMeasure n * r ^ n ∧
+    (0 ≤ r → MeasureTheory.volume (Metric.ball (0 : EuclideanSpace ℝ (Fin (n + 1))) r)
+      = ENNReal.ofReal (nBallMeasure (n + 1) r)) :=
+  ⟨PhsMore.nBallMeasure_eq n r, PhsMore.nBallMeasure_volume_succ n r⟩
+
+/-- **In the plane the rotation is no longer a parameter**: the model's own `rot2` (what `updateRotation`'s
+SVD + `det = +1` must produce; compared with the recovered matrix at 1e-9 on every run) satisfies `Setup` for
+every pair of distinct foci, so surface / interior / onto hold unconditionally in 2-D. -/
+theorem phs2d_unconditional {f1 f2 : List ℝ} (h1 : f1.length = 2) (h2 : f2.length = 2) (hne : f1 ≠ f2)
+    (id : ℕ) (c : ℝ) :
+    Setup 1 f1 f2 (rot2 f1 f2) ∧
+    (∀ u : List ℝ, u.length = 2 → sumSq u = 1 → ((Phs.mk' id f1 f2 (rot2 f1 f2)).setC c).cmin ≤ c →
+      ∃ x, ((Phs.mk' id f1 f2 (rot2 f1 f2)).setC c).transform u = some x ∧
+        ((Phs.mk' id f1 f2 (rot2 f1 f2)).setC c).pathLength x = c) ∧
+    (∀ u : List ℝ, u.length = 2 → sumSq u < 1 → ((Phs.mk' id f1 f2 (rot2 f1 f2)).setC c).cmin < c →
+      ∃ x, ((Phs.mk' id f1 f2 (rot2 f1 f2)).setC c).transform u = some x ∧
+        ((Phs.mk' id f1 f2 (rot2 f1 f2)).setC c).isIn x = true) ∧
+    (((Phs.mk' id f1 f2 (rot2 f1 f2)).setC c).cmin < c → ∀ x : List ℝ, x.length = 2 →
+      ((Phs.mk' id f1 f2 (rot2 f1 f2)).setC c).isIn x = true →
+      ∃ u : List ℝ, u.length = 2 ∧ sumSq u < 1 ∧ ((Phs.mk' id f1 f2 (rot2 f1 f2)).setC c).transform u = some x) := by
+  refine ⟨PhsMore.rot2_setup_of_ne h1 h2 hne, fun u hu hsq hc => ?_, fun u hu hsq hc => ?_, fun hc x hx hin => ?_⟩
+  · obtain ⟨x, hx, _, hp, _⟩ := PhsMore.phs2d_surface h1 h2 hne id c hu hsq hc
+    exact ⟨x, hx, hp⟩
+  · obtain ⟨x, hx, _, hi⟩ := PhsMore.phs2d_interior h1 h2 hne id c hu hsq hc
+    exact ⟨x, hx, hi⟩
+  · exact PhsMore.phs2d_onto h1 h2 hne id c hc x hx hin
+
+/-- non-vacuity: distinct foci of length 2 exist -/
+example : ([-3, 0] : List ℝ).length = 2 ∧ ([3, 0] : List ℝ).length = 2 ∧ ([-3, 0] : List ℝ) ≠ [3, 0] := by
+  refine ⟨rfl, rfl, ?_⟩
+  intro h
+  have := (List.cons.inj h).1
+  norm_num at this
+
+
+/-- **The reported measure IS the Lebesgue volume of the informed set**, in every dimension `n+1`: for foci
+given as coordinate lists, `cmin = ‖f₁ − f₂‖ < c`, the value `prolateHyperspheroidMeasure(n+1, cmin, c)`
+computed by the coded loop equals `volume {x | ‖x − f₁‖ + ‖x − f₂‖ < c}` (Mathlib's Lebesgue measure on
+`EuclideanSpace ℝ (Fin (n+1))`; the set is the linear image of the unit ball, determinant `(c/2)·rⁿ`). -/
+theorem reported_measure_is_lebesgue_volume (n : ℕ) (f1 f2 : List ℝ) (h1 : f1.length = n + 1)
+    (h2 : f2.length = n + 1) (hne : toE (n + 1) f1 ≠ toE (n + 1) f2) (c : ℝ)
+    (hc : vnorm (vsub f1 f2) < c) :
+    ∃ m : ℝ, phsMeasure (n + 1) (vnorm (vsub f1 f2)) c = some m ∧
+      MeasureTheory.volume {x : EuclideanSpace ℝ (Fin (n + 1)) |
+        ‖x - toE (n + 1) f1‖ + ‖x - toE (n + 1) f2‖ < c} = ENNReal.ofReal m := by
+  have hcm : vnorm (vsub f1 f2) = ‖toE (n + 1) f2 - toE (n + 1) f1‖ := by
+    rw [vnorm_eq (vsub_length h1 h2), toE_vsub h1 h2, norm_sub_rev]
+  rw [hcm] at hc ⊢
+  exact PhsVolume.phs_volume_model n (toE (n + 1) f1) (toE (n + 1) f2) hne c hc
+
+
+/-- **OrderedInfSampler with its persistent queue** [AF] (`orderedRun`: the state machine the driver runs in
+lock-step with the real class over scripted draws): if every state already queued is `good` and every
+SUCCESSFUL wrapped call of `createBatch` yields a `good` state, then a `true` return yields a `good` state
+that passes the cost test for the CURRENT bound, and the queue left behind is again all `good` — so the
+guarantee composes over any number of successive calls with changing bounds; `false` is returned only
+when a whole batch of wrapped calls failed. -/
+theorem ordered_queue_sound {α : Type} [Num α] {σ S : Type} (h : σ → α) (c : α)
+    (mk : S → Option (List (Wrapped σ) × S)) (good : σ → Prop)
+    (hmk : ∀ s b s', mk s = some (b, s') → ∀ w ∈ b, w.1 = true → good w.2)
+    (fuel : Nat) (q : List σ) (s : S) (hq : ∀ x ∈ q, good x) :
+    (∀ t rest s', orderedRun h c mk fuel q s = .found t rest s' → good t ∧ h t < c ∧ ∀ x ∈ rest, good x) ∧
+    (∀ s', orderedRun h c mk fuel q s = .failed s' → ∃ s0 b, mk s0 = some (b, s') ∧ ∀ w ∈ b, w.1 = false) :=
+  ⟨fun t rest s' hr => PhsOrdered.orderedRun_sound h c mk good hmk fuel q s hq t rest s' hr,
+   fun s' hr => PhsOrdered.orderedRun_failed h c mk fuel q s s' hr⟩
+
+/-! ## Non-vacuity (Proofs/PhsNonvac.lean): the hypotheses of the theorems above are jointly satisfiable -/
+
+/-- a concrete finite-bound run of the direct sampler that SUCCEEDS on the PHS branch (foci (∓3,0), c = 10, one
+draw at the ball centre): premises of `sample_success_sound`, `direct_success_*` hold for it -/
+example : (PhsNonvac.exSampler.sample2 (fun _ => true) true 10 [PhsNonvac.exDraw] (([] : List ℝ), ())).2.found = true :=
+  PhsNonvac.ex_success
+example : Setup 1 [-3, 0] [3, 0] [[1, 0], [0, 1]] := PhsNonvac.ex_setup_of_lists
+example : phsMeasure 2 (6 : ℝ) 10 = some (Real.pi * 5 * 4) := PhsNonvac.ex_measure
+example {α : Type} [Num α] {σ : Type} (h : σ → α) (c : α) (t : σ) (ht : h t < c) :
+    orderedSample h c [[(true, t)]] = .found t [t] := PhsNonvac.ordered_one_success h c t ht
+example {α : Type} [Num α] {σ : Type} (h : σ → α) (c : α) (t : σ) (ht : h t < c) :
+    orderedRun h c (fun _ : Unit => some ([(true, t)], ())) 1 [] () = .found t [] () :=
+  PhsNonvac.orderedRun_one_success h c t ht
+example {α : Type} [Num α] {ρ : Type} (h : List α × ρ → α) (c : α) (d : Draw α ρ) (cur : List α × ρ)
+    (hd : h (d.baseInf, d.baseRest) < c) :
+    rejSample2 h 1 c [d] cur = ⟨true, (d.baseInf, d.baseRest), 1, [], false, false⟩ :=
+  PhsNonvac.rejSample2_one_success h c d cur hd
 
 /-! ## Non-vacuity of the geometric hypotheses -/
 
